@@ -174,55 +174,6 @@ def gatherCopyMask (s : St) (t : Dense) : Res St := do
         wr s (j + 1) vs
     wr s 0 padded
 
-/-- `for i, d := range expShape { if d != 1 && i < len(expStrides) && i < len(strides) { expStrides[i] = strides[i] } }` -/
-def vectorKeepStrides : Shape → List Int → List Int → List Int
-  | d :: ds, e :: es, s :: ss => (if d != 1 then s else e) :: vectorKeepStrides ds es ss
-  | _, es, _ => es
-
-/-- `(*Dense).Transpose()`: physically move the data of a pending lazy transpose. -/
-def transpose (s : St) (t : Dense) : Res (St × Dense) := do
-  match t.old with
-  | none => pure (s, t)
-  | some _ =>
-    if isScalar t.shape then pure (s, t) else
-    let exp := defaultStrides t.ap.o.col t.shape
-    let done : Dense := { t with ap := { t.ap with strides := copyPrefix t.ap.strides exp }, old := none, tw := none }
-    -- a vector: no data movement, the axis that holds the elements keeps the stride it has
-    if isVector t.shape then
-      pure (s, { done with ap := { t.ap with strides := copyPrefix t.ap.strides (vectorKeepStrides t.shape exp t.ap.strides) } })
-    else
-    let s ← gatherCopyMask s t
-    let s ← gatherCopy s t
-    pure (s, done)
-
-/-- `UT()` -/
-def ut (t : Dense) : Dense :=
-  match t.old with
-  | some o => { t with ap := o, old := none, tw := none }
-  | none => t
-
-/-- `T(axes...)` -/
-def T (s : St) (t : Dense) (axes : List Int) : Res (St × Dense) := do
-  match ← t.ap.T axes with
-  | .noop _ _ => pure (s, t)
-  | .ok transform axes =>
-    match t.old with
-    | none => pure (s, { t with old := some t.ap, tw := some axes, ap := transform })
-    | some _ =>
-      if isVector t.shape then pure (s, t.ut) else
-      -- "is this the undo of the pending transpose?": transposeWith[axes[i]] == i for all i
-      let tw := t.tw.getD []
-      let isReversed := axes.length == tw.length &&
-        (List.range axes.length).all (fun i => match axes[i]? with
-          | some a => decide (0 ≤ a) && getI? tw a == some (Int.ofNat i)
-          | none => false)
-      if isReversed then pure (s, t.ut) else
-      let (s, t') ← transpose s t
-      -- the data has moved: the transform is recomputed from the materialised pattern
-      match ← t'.ap.T axes with
-      | .noop _ _ => pure (s, t')
-      | .ok transform axes => pure (s, { t' with old := some t'.ap, tw := some axes, ap := transform })
-
 /-- fresh tensor holding `cells`, default strides for `col` -/
 def fresh (s : St) (dt : String) (sh : Shape) (col : Bool) (cells : Array Val) (eng : Eng := .std) : St × Dense :=
   let (s, b) := s.alloc cells
